@@ -847,6 +847,21 @@ def show_opaque(x, depth=3):
     return show(transform(x, leaf))
 
 
+def opaque_inputs(x):
+    """the input symbols a term of the uninterpreted arithmetic was computed from (opaque symbols expanded recursively)"""
+    out, seen, stack = set(), set(), [x]
+    while stack:
+        t = stack.pop()
+        for sn in t.symbols():
+            if sn in OPAQUE_DEF:
+                if sn not in seen:
+                    seen.add(sn)
+                    stack.extend(OPAQUE_DEF[sn][1:])
+            else:
+                out.add(sn)
+    return out
+
+
 def isym(name):
     declare_int(name)
     return NF.sym(name)
